@@ -217,6 +217,9 @@ pub fn required_counters(id: &str) -> &'static [&'static str] {
             "faults_injected",
             "second_level_images",
             "continuations_run(8_writes+flush+restart)",
+            "real_sigkill_rounds",
+            "real_sigkill_recoveries_matching_a_prefix",
+            "full_queue_rounds",
         ],
         "C04" => &["acks_ok_checked_against_shadow_fs", "acks_ok_spanning_several_chunk_files", "acks_err", "faults_injected", "full_queue_rounds", "shutdown_cases(flush_with_callback_then_drop)"],
         "C06" => &["rejected_calls", "restarts_at_the_end_of_the_history", "partial_order_vote:incomparable_votes_tried"],
